@@ -1,4 +1,7 @@
 import GoflowModel.Excellent.Legacy
+import GoflowModel.Excellent.LegacyTable
+import GoflowModel.Lemmas.LegacyFull
+import GoflowModel.Gen.LegacyFuncs
 /-!
 # C17 — Legacy expression migration preserves meaning
 
@@ -13,10 +16,31 @@ the migrated expression (`migE`, the model of the text the visitor assembles wit
   operator has the operands it had, in the order it had them.
 
 `naive_regroups` is the kernel-checked witness that the migration before the repair (operands
-substituted as they are) regrouped `SUM(1, 2) * 3`.  Functions that migrate to calls, date
-arithmetic, `+`/`-` (which migrate to `legacy_add` calls) and literals are decided on the
-implementation against the fully parenthesised translation of the same tree (monitor) — the
-parser theorem does not cover calls.
+substituted as they are) regrouped `SUM(1, 2) * 3`.
+
+**The whole visitor** (second half of this file; model `Excellent/LegacyFull`, table
+`Excellent/LegacyTable`): dotted context references, text literals, every form of `+`/`-` the type
+inference can pick (two numbers, datetime ± days, date ± days with or without `format_date`,
+datetime ± time, date + time, the `legacy_add` fallback) and **every function call through the
+migration table** — kept, renamed, joined, written through a template with operator positions, or
+through per-parameter migrators with defaults (decremented positions, the `by_spaces` flag):
+
+* `migF_shape` / `migF_parses`: for every well-formed legacy expression, of any size and nesting, the
+  migrated text's tokens parse back to exactly the tree the migration meant (C11's round trip for
+  the whole language) — nothing is regrouped by the new parser's precedence rules;
+* `migF_grouping`: that tree, parentheses aside, is the denoted tree (`semF`): every operator and
+  call has the operands it had, in the order the table prescribes;
+* `table_matches_source`: the model's table, described back in the terms of the source, **is** the
+  `callMigrators` table regenerated from functions.go on every run (constructor, template text, new
+  names, levels, parameter migrators, defaults); `table_wellformed`: every entry's template is
+  written so that the parser reads it as meant whatever the parameters (`TOK`), hence
+  `table_calls_wellformed`: a call of any table function with a number of parameters its migrator
+  accepts is well formed.
+
+Not theorems: which form of `+`/`-` is picked (`inferType` works on text; the correspondence
+K:legmigf sends the form an independent reading of the operand texts gives and compares the whole
+migrated text), the mapping of context references (`MigrateContextReference`), and the value of a
+decremented literal beyond `decr` (monitors M-meaning, M-golden).
 -/
 namespace GoflowModel.Props.C17
 open GoflowModel.Expr GoflowModel.Legacy
@@ -129,5 +153,110 @@ theorem naive_regroups :
     render (migE l) = "(1 + 2) * 3".toList ∧
     (parse (toks (migE l))).map grouped = some "((1 + 2) * 3)".toList := by
   decide
+
+/-! ## The whole visitor -/
+
+section Full
+open GoflowModel.LegacyFull GoflowModel.Expr.Full
+
+/-- The migrated tree of a well-formed legacy expression is in the shape the new parser produces. -/
+theorem migF_shape (l : LF) (h : LegacyFull.LWF l) : Shape (.e (migF l)) := (good_migF l h).1
+
+/-- **The migrated text parses to the migrated tree**, for the whole legacy language. -/
+theorem migF_parses (l : LF) (h : LegacyFull.LWF l) :
+    ∃ f0, ∀ f, f0 ≤ f → parseExpr f 0 (toks (migF l)) = some (migF l, []) := by
+  have hp : Full.Parses (.expr 0) (toks (migF l) ++ []) (.e (migF l)) [] :=
+    (complete_of_shape (migF_shape l h)).1 0 [] (.e (migF l)) [] (Nat.zero_le _) (by simp [Full.quiet])
+      (by intro q tl hh; cases hh) (.stop (by simp [Full.stops]))
+  rw [List.append_nil] at hp
+  exact holds_of_parses hp
+
+/-- …and as a parameter or in parentheses, i.e. wherever the migration of an enclosing call puts it:
+before `)`, `,` or the end. -/
+theorem migF_parses_in_context (l : LF) (h : LegacyFull.LWF l) (rest : List Tok) (hq : Full.quiet rest)
+    (hs : ∀ q tl, rest ≠ .op q :: tl) :
+    ∃ f0, ∀ f, f0 ≤ f → parseExpr f 0 (toks (migF l) ++ rest) = some (migF l, rest) := by
+  have hp : Full.Parses (.expr 0) (toks (migF l) ++ rest) (.e (migF l)) rest :=
+    (complete_of_shape (migF_shape l h)).1 0 rest (.e (migF l)) rest (Nat.zero_le _) hq
+      (fun q tl hh => absurd hh (hs q tl)) (.stop (stops_of 0 rest (fun q tl hh => absurd hh (hs q tl))))
+  exact holds_of_parses hp
+
+/-- **Grouping and argument order are kept**, for the whole legacy language. -/
+theorem migF_grouping (l : LF) : LegacyFull.strip (migF l) = semF l := strip_migF l
+
+/-- the two together: the tokens of the migrated text parse to a tree that, parentheses aside, is the
+tree the legacy expression denotes -/
+theorem migF_meaning (l : LF) (h : LegacyFull.LWF l) :
+    ∃ f0, ∀ f, f0 ≤ f → (parseExpr f 0 (toks (migF l))).map (fun p => LegacyFull.strip p.1) = some (semF l) := by
+  obtain ⟨f0, hf⟩ := migF_parses l h
+  exact ⟨f0, fun f hle => by rw [hf f hle]; simp [migF_grouping]⟩
+
+abbrev Row := List Char × List Char × List (List Char) × List Nat
+
+def srcRow (x : String × String × List String × List Nat) : Row :=
+  (x.1.toList, x.2.1.toList, x.2.2.1.map String.toList, x.2.2.2)
+
+def modelRow (e : Entry) : Row := (e.name.toList, describe e)
+
+/-- **The model's table is the source's table** (regenerated from functions.go on every run): same
+functions, same migrator constructors, same template texts, new names, levels, parameter migrators
+and defaults. -/
+theorem table_matches_source : table.map modelRow = Gen.LegacyFuncs.callMigrators.map srcRow := by decide
+
+/-- every template of the table keeps its operator positions whatever the parameters; names are
+lower case; defaults are canonical numbers -/
+theorem table_wellformed : table.all entryOK = true := by decide
+
+/-- the numbers of parameters a migrator accepts without an error or garbage -/
+def accepts : Mig → Nat → Bool
+  | .call _, _ => true
+  | .join _, k => decide (1 ≤ k)
+  | .tmpl _ arity, k => decide (k = arity)
+  | .params _ pms minArgs _, k => decide (minArgs ≤ k) && decide (k ≤ pms.length)
+
+theorem migOK_of_entryOK (e : Entry) (h : entryOK e = true) (k : Nat) (ha : accepts e.mig k = true) :
+    MigOK e.mig k = true := by
+  unfold entryOK at h
+  cases hm : e.mig with
+  | call n => rw [hm] at h; simpa [MigOK] using h
+  | join o => rw [hm] at ha; simpa [MigOK, accepts] using ha
+  | tmpl t arity =>
+    rw [hm] at h ha
+    simp only [MigOK, accepts, Bool.and_eq_true, decide_eq_true_eq] at h ha ⊢
+    exact ⟨h.1, ha⟩
+  | params n pms minArgs defaults =>
+    rw [hm] at h ha
+    simp only [MigOK, accepts, Bool.and_eq_true, decide_eq_true_eq] at h ha ⊢
+    exact ⟨⟨⟨⟨h.1.1.1.1, ha.1⟩, ha.2⟩, h.1.2⟩, h.2⟩
+
+/-- **Every call of a table function with an accepted number of well-formed parameters is well
+formed**, so the three theorems above apply to it. -/
+theorem table_calls_wellformed (e : Entry) (he : e ∈ table) (args : LFArgs) (ha : accepts e.mig args.length = true)
+    (hargs : LegacyFull.LWFArgs args) : LegacyFull.LWF (.fn e.mig args) := by
+  simp only [LegacyFull.LWF]
+  exact ⟨migOK_of_entryOK e (List.all_eq_true.1 table_wellformed e he) _ ha, hargs⟩
+
+/-- a function the table does not know is kept as a call of the same (lower-cased) name -/
+theorem unknown_function_kept (name : List Char) (hn : lowerName name = name) (args : LFArgs)
+    (hargs : LegacyFull.LWFArgs args) : LegacyFull.LWF (.fn (.call name) args) := by
+  simp only [LegacyFull.LWF, MigOK, beq_iff_eq]
+  exact ⟨hn, hargs⟩
+
+/-- the premises are met by real expressions, and the texts are the ones the Go code writes:
+`RIGHT(contact.name, 2 ^ 2)`, `WORD(flow.x, contact.n + 1)`, `contact.age - (1 + 2)` (nothing known about
+the operands), `SUM(1, 2) * WEEKDAY(NOW())` -/
+example :
+    let a := LF.fn (migOf "right") (.cons (.path "contact".toList ["name".toList]) (.cons (.bin .exp (.num ['2']) (.num ['2'])) .nil))
+    let b := LF.fn (migOf "word") (.cons (.path "results".toList ["x".toList])
+      (.cons (.arith .fallback false (.path "fields".toList ["n".toList]) (.num ['1'])) .nil))
+    let c := LF.arith .fallback true (.path "fields".toList ["age".toList]) (.paren (.bin .add (.num ['1']) (.num ['2'])))
+    let d := LF.bin .mul (.fn (migOf "sum") (.cons (.num ['1']) (.cons (.num ['2']) .nil))) (.fn (migOf "weekday") (.cons (.fn (migOf "now") .nil) .nil))
+    render (migF a) = "text_slice(contact.name, -(2 ^ 2))".toList ∧
+    render (migF b) = "word(results.x, legacy_add(fields.n, 1) - 1)".toList ∧
+    render (migF c) = "legacy_add(fields.age, -(1 + 2))".toList ∧
+    render (migF d) = "(1 + 2) * (weekday(now()) + 1)".toList := by
+  decide
+
+end Full
 
 end GoflowModel.Props.C17
